@@ -237,9 +237,14 @@ pub fn conclude(ctx: &mut Ctx, stats: &SemStats, generated: u64) {
     for (k, v) in &stats.known_limit {
         ctx.count_excluded(k, *v);
     }
-    if generated > 0 && rejected * 20 > generated {
+    // template families (C23-C26) only emit program shapes that are known to compile on the
+    // unchanged tree: there, any rejection makes the run inconclusive; for the random generators
+    // (C21/C22) the budget is 5 %.
+    let strict = !matches!(ctx.prop(), "C21" | "C22");
+    if generated > 0 && (rejected * 20 > generated || (strict && rejected > 0)) {
         ctx.inconclusive(format!(
-            "{rejected} of {generated} generated programs were rejected by the front end / rustc (> 5 %): generator typing bugs"
+            "{rejected} of {generated} generated programs were rejected by the front end / rustc{}",
+            if strict { " (template programs are expected to compile)" } else { " (> 5 %): generator typing bugs" }
         ));
     }
     if stats.hangs > 0 {
